@@ -82,6 +82,8 @@ func histString(h []apiCall) string {
 			parts = append(parts, fmt.Sprintf("it:=WalkIter(#%d)", c.P))
 		case "Range":
 			parts = append(parts, fmt.Sprintf("range it%d", c.P))
+		case "RangeBreak":
+			parts = append(parts, fmt.Sprintf("range it%d{break}", c.P))
 		default:
 			parts = append(parts, fmt.Sprintf("%s(#%d)", c.Kind, c.P))
 		}
@@ -305,14 +307,23 @@ func replayHistory(a *apiState, c *tok.Conc, mdDiff bool) (string, string) {
 				it = gtree.WalkIterProgrammably(nodes[call.P], branchOpts(ci)...)
 			}
 			held = append(held, heldIter{it, ci})
-		case "Range":
+		case "Range", "RangeBreak":
 			h := held[call.P-1]
-			recs, o := real.RangeWalk(h.it)
+			var recs []real.WalkRec
+			var o real.Outcome
+			if call.Op == "RangeBreak" {
+				recs, o = real.RangeWalkBreak(h.it, 1) // the loop is left after its first visit
+			} else {
+				recs, o = real.RangeWalk(h.it)
+			}
 			if last {
 				want := expectWalk(a.Exp.Walk, h.c)
 				// the walk of the tree as it is now; a snapshot taken when the iterator was created would be a
 				// function of a tree too - anything else is not
 				atOpen := expectWalk(a.Snaps[call.P-1], h.c)
+				if call.Op == "RangeBreak" && len(atOpen) > 1 {
+					atOpen = atOpen[:1]
+				}
 				if o.Class() != "ok" || !(sameWalk(recs, want) || sameWalk(recs, atOpen)) {
 					return fmt.Sprintf("call %d range over iterator %d: want=%v (or, as of its creation, %v) got=%v err=%v %s",
 						i+1, call.P, want, atOpen, recs, o.Err, firstLine(o.Panic)), "deferred-iterator-walk-differs"
